@@ -24,7 +24,7 @@ ANCHORS = ["coxeter.shapes.convex_polyhedron:ConvexPolyhedron._combine_simplices
 REQUIRED_MONITORS = ["convex:faces-are-hull-facets", "convex:face-ccw-from-outside", "convex:equations", "convex:neighbors",
                      "convex:edges", "convex:euler", "convex:simplices", "convex:dihedral", "sort_faces:outward-ccw",
                      "merge_faces:hull-facets", "order-independence"]
-REQUIRED_CLASSES = ["convex:lattice", "convex:tabulated", "convex:exact", "scramble:convex", "scramble:voxel", "merge:convex", "history:aged-object"]
+REQUIRED_CLASSES = ["convex:lattice", "convex:tabulated", "convex:exact", "convex:bigprism", "scramble:convex", "scramble:voxel", "merge:convex", "history:aged-object"]
 
 
 def ncases(tier):
@@ -174,13 +174,34 @@ def run_case(i, rng, rec, tier, state):
             c = gen.convex_exact_extreme(rng)
             _EXACT.clear()
             _EXACT[c["P"].tobytes()] = geom.hull_from_exact(c["P"], c["Pint"])
+        elif (i // 3) % 16 == 6:
+            # large solids with many-sided faces: prisms / frusta over an irregular convex n-gon, n = 100..260 (more than
+            # 512 hull triangles, facets of more than a hundred vertices), in a random rigid placement and vertex order
+            n = int(rng.integers(100, 261))
+            th = np.sort(rng.uniform(0, 2 * np.pi, n))
+            for _ in range(50):
+                gaps = np.diff(np.append(th, th[0] + 2 * np.pi))
+                if gaps.min() > 0.3 * 2 * np.pi / n:
+                    break
+                th = np.sort(rng.uniform(0, 2 * np.pi, n))
+            else:
+                th = np.linspace(0, 2 * np.pi, n, endpoint=False) + rng.uniform(-0.2, 0.2, n) * 2 * np.pi / n
+            ab = np.exp(rng.uniform(-0.3, 0.3, size=2))
+            ring = np.column_stack((ab[0] * np.cos(th), ab[1] * np.sin(th)))
+            top = ring * float(rng.choice([1.0, 0.8]))          # prism or frustum (all side faces stay planar quadrilaterals)
+            P0 = np.vstack((np.column_stack((ring, np.zeros(n))), np.column_stack((top, np.full(n, float(rng.uniform(0.5, 2.0)))))))
+            P0, _, _, ratio = gen.place(rng, P0, offset_choices=(0.0, 1.0))
+            c = {"P": P0[rng.permutation(len(P0))], "kind": "bigprism", "offset_ratio": ratio}
         else:
             c = gen.convex_case(rng, tabulated_frac=0.15)
         P = c["P"]
         try:
             s = cs.ConvexPolyhedron(P.copy())          # monitored: structural postcondition runs here
         except Exception as e:
-            rec.note("construct-failed (judged by C15): " + type(e).__name__)
+            # every vertex set drawn here is in convex position by construction: no face structure at all is a failure of
+            # the first sentence of the statement (C15 judges acceptance on its own, smaller inputs)
+            rec.violation("convex:faces-are-hull-facets", f"ConvexPolyhedron.__init__/raises-{type(e).__name__}-for-points-in-convex-position",
+                          {"vertices": P if len(P) <= 60 else P[:60], "n": len(P), "kind": c["kind"], "exc": repr(e)[:200]})
             return
         rec.cls("convex:" + c["kind"].split("-")[0])
         perm = rng.permutation(len(P))
